@@ -313,7 +313,7 @@ func (r *vfRouting) matches(want map[string]string) bool {
 // router has applied it.  Outcome is deterministic; only the waiting is real time.
 func (r *vfRouting) set(want map[string]string) {
 	ctx := context.Background()
-	for round := 0; round < 20; round++ {
+	for round := 0; round < 15; round++ {
 		for _, tp := range vfAllTPs {
 			topic, part := vfSplitTP(tp)
 			cur := r.router.LookupOwner(topic, part)
@@ -337,7 +337,7 @@ func (r *vfRouting) set(want map[string]string) {
 		if _, err := r.cli.Put(ctx, vfLeasePrefix+"/zzsync/0", val); err != nil {
 			r.t.Fatalf("etcd write: %v", err)
 		}
-		deadline := time.Now().Add(500 * time.Millisecond)
+		deadline := time.Now().Add(2 * time.Second)
 		for time.Now().Before(deadline) {
 			if r.router.LookupOwner("zzsync", 0) == val {
 				break
